@@ -2162,13 +2162,21 @@ class Process:
             return cext.proc_cpu_affinity_get(self.pid)
 
         def _get_eligible_cpus(
-            self, _re=re.compile(br"Cpus_allowed_list:\t(\d+)-(\d+)")
+            self, _re=re.compile(br"^Cpus_allowed_list:\t(.+)$", re.M)
         ):
             # See: https://github.com/giampaolo/psutil/issues/956
             data = self._read_status_file()
-            match = _re.findall(data)
+            match = _re.search(data)
+            cpus = []
             if match:
-                return list(range(int(match[0][0]), int(match[0][1]) + 1))
+                # The list is a comma separated sequence of CPU numbers
+                # and ranges, e.g. "0-3", "0,2" or "0-1,4-5".
+                for item in match.group(1).decode().split(','):
+                    first, _, last = item.strip().partition('-')
+                    if first.isdigit() and (not last or last.isdigit()):
+                        cpus.extend(range(int(first), int(last or first) + 1))
+            if cpus:
+                return cpus
             else:
                 return list(range(len(per_cpu_times())))
 
